@@ -16,6 +16,7 @@ structure SpecHalf where
   start : Int
   mode : Mode
   prev : Obj
+  asked : Nat := 0     -- notification requests / due checks addressed to this object on this side since its start
   deriving DecidableEq, Repr
 
 structure SpecSt where
@@ -33,7 +34,7 @@ def inGrace (start now : Int) : Bool := decide (start = 0) || decide (now - star
 
 def specHalfNext (l : Layout) (h : SpecHalf) (e : Ev) (o : Obj) : SpecHalf :=
   match e with
-  | .boot _ start => { sees := false, start := start, mode := .unknown, prev := o }
+  | .boot _ start => { sees := false, start := start, mode := .unknown, prev := o, asked := 0 }
   | .link _ up => { h with sees := up, mode := .unknown, prev := o }
   | .upd _ now =>
     let m := match l with
@@ -41,10 +42,14 @@ def specHalfNext (l : Layout) (h : SpecHalf) (e : Ev) (o : Obj) : SpecHalf :=
       | _ => Mode.alone
     { h with mode := m, prev := o }
   | .idle _ => { h with prev := o }
+  | .request _ => { h with prev := o, asked := h.asked + 1 }
+  | .ntimer _ => { h with prev := o }
+  | .due _ => { h with prev := o, asked := h.asked + 1 }
 
 inductive Clause
   | freshAfterBoot | noSpontaneousChange | coldStartNoChange | oncePerChange
   | aloneAllActive | exactlyOne | sameSplit | runEverywhereActive
+  | pausedNodeIsSilent | neverMoreThanAsked | dueCheckRuns
   deriving DecidableEq, Repr
 
 def Clause.name : Clause → String
@@ -56,6 +61,9 @@ def Clause.name : Clause → String
   | .exactlyOne => "exactly_one_active"
   | .sameSplit => "same_split_every_time"
   | .runEverywhereActive => "run_everywhere_always_active"
+  | .pausedNodeIsSilent => "paused_node_is_silent"
+  | .neverMoreThanAsked => "never_more_executions_than_requests"
+  | .dueCheckRuns => "due_check_runs_on_the_active_node"
 
 /-- "An authority change pauses or resumes an object exactly once": counters move with `paused`. -/
 def deltaOk (prev o : Obj) : Bool :=
@@ -63,14 +71,36 @@ def deltaOk (prev o : Obj) : Bool :=
   else if o.paused then o.pauses == prev.pauses + 1 && o.resumes == prev.resumes
   else o.pauses == prev.pauses && o.resumes == prev.resumes + 1
 
+/-- Authority state untouched. -/
+def sameAuth (prev o : Obj) : Bool :=
+  o.paused == prev.paused && o.pauses == prev.pauses && o.resumes == prev.resumes
+
+/-- "A paused endpoint neither executes checks nor sends notifications for that object": work events
+    (`silentWhenPaused` = the event is one for which the sentence applies on this kind of node). -/
+def checkWork (c : ObjCfg) (h h' : SpecHalf) (silentWhenPaused : Bool) (o : Obj) : Option Clause :=
+  if !sameAuth h.prev o then some .noSpontaneousChange
+  else if silentWhenPaused && h.prev.paused && o.execs != h.prev.execs then some .pausedNodeIsSilent
+  else if o.execs < h.prev.execs || o.execs > h'.asked then some .neverMoreThanAsked
+  else if c.kind == .other && (o.execs != h.prev.execs || o.stash != h.prev.stash) then some .noSpontaneousChange
+  else none
+
 /-- Checks on the side the event addresses (`h` = bookkeeping before, `h'` after). -/
 def checkOwn (l : Layout) (c : ObjCfg) (h h' : SpecHalf) (e : Ev) (o : Obj) : Option Clause :=
   match e with
   | .boot _ _ => if o != fresh c then some .freshAfterBoot else none
   | .link _ _ => if o != h.prev then some .noSpontaneousChange else none
   | .idle _ => if o != h.prev then some .noSpontaneousChange else none
+  | .request _ => checkWork c h h' true o
+  -- notificationcomponent.cpp:159: the timer honours `paused` only on a node with a local endpoint
+  | .ntimer _ => checkWork c h h' (l != .noZone) o
+  | .due _ =>
+    match checkWork c h h' true o with
+    | some cl => some cl
+    | none =>
+      if c.kind == .checkable && c.active && !h.prev.paused && o.execs != h.prev.execs + 1 then some .dueCheckRuns else none
   | .upd _ now =>
     if l == .pair && !h.sees && inGrace h.start now && o != h.prev then some .coldStartNoChange
+    else if o.execs != h.prev.execs || o.stash != h.prev.stash then some .noSpontaneousChange
     else if !deltaOk h.prev o then some .oncePerChange
     else if !touched c && o != h.prev then some .noSpontaneousChange
     else if touched c && h'.mode == .alone && o.paused then some .aloneAllActive
